@@ -3,11 +3,15 @@ package harness
 import (
 	"sort"
 	"testing"
+	"time"
 
 	"verif.local/simrt"
 )
 
 const minimiseBudget = 500
+
+// minimiseWall bounds the wall-clock time spent on one violation.
+const minimiseWall = 25 * time.Second
 
 // shrinkers propose structurally simpler specs (fewer workers, smaller
 // arguments, simpler simulator configuration). Property-specific.
@@ -20,8 +24,10 @@ var shrinkers = map[string]func(RunSpec) []RunSpec{}
 func Minimise(t *testing.T, spec RunSpec, v *Verdict) (RunSpec, *Verdict, int) {
 	target := v.Sig
 	runs := 0
+	started := time.Now()
 	try := func(s RunSpec) *Verdict {
-		if runs >= minimiseBudget {
+		if runs >= minimiseBudget || (runs > 3 && time.Since(started) > minimiseWall) {
+			runs = minimiseBudget
 			return nil
 		}
 		runs++
